@@ -134,6 +134,28 @@ theorem values_unchanged_sublist (r r' : Result) (n : Option NSpec) (lp : Option
     r'.ints.Sublist r.ints ∧ r'.envs.Sublist r.envs ∧ r'.lrns.Sublist r.lrns ∧ r'.evals.Sublist r.evals :=
   filter_fin_sublist' r r' n lp hs hu hw hrefs hall h
 
+/-! ### chains (the "histories" of the quantifier) -/
+
+/-- what `where_fin` returns is again well-formed, with every parameter row referenced — so the hypotheses of
+`filter_fin_eq_spec` hold again for the next call of a chain -/
+theorem filter_fin_preserves_wf (r r' : Result) (n : Option NSpec) (lp : Option (List Col × List Col)) (hwf : WF r)
+    (hall : lp = none → AllReferenced r) (h : filterFin true r n lp = .ok r') : WF r' ∧ AllReferenced r' := by
+  rw [filter_fin_eq_spec r n lp hwf.1 hwf.2.1 hwf.2.2.1 hwf.2.2.2 hall] at h
+  exact whereFinS_wf r r' n lp hwf h
+
+/-- `where(col=value | [values])` keeps a Result well-formed and fully referenced -/
+theorem where_preserves_wf (r : Result) (tb : Tbl) (j : Option Nat) (vals : List Int) (hwf : WF r)
+    (hall : AllReferenced r) : WF (whereTbl r tb j vals) ∧ AllReferenced (whereTbl r tb j vals) :=
+  whereTbl_wf r tb j vals hwf hall
+
+/-- every chain `r.where_fin(…).where(…).where_fin(…)…` of the (repaired) code equals the same chain of
+specifications, for all chains and all well-formed, fully referenced starting Results -/
+theorem chain_eq_spec (ss : List Step) (r : Result) (hwf : WF r) (hall : AllReferenced r) :
+    runChain true ss r = runChainS ss r :=
+  runChain_eq_spec ss r hwf hall
+
+example : WF cexResult ∧ AllReferenced cexResult := by decide
+
 /-! ### `raw_learners` -/
 
 /-- `_grouped_ys` — the insertion-ordered dict of lists filled from `moving_average` / `mean` — reports for every
